@@ -155,6 +155,7 @@ func init() {
 		partNoninterference(c, a, c.Pick(64, 640))
 		reproDeferredCrossing(c, a)
 		partIntegrityStorm(c, a)
+		partRealBinaryIntegrity(c, a, false)
 		return a.finish(c)
 	}
 	registry["C17"] = checkC17
